@@ -61,3 +61,287 @@ def plan_c01(tier, seed):
 
 
 PLANS = {"C01": plan_c01}
+
+
+def field_harnesses(L, f, prop, oob=True, get=True, sett=True):
+    hs = []
+    if get and f.readable:
+        hs.append(H.h_get(L, f, prop))
+    if sett and f.writable:
+        hs.append(H.h_set(L, f, prop))
+    if oob and f.array:
+        if f.readable:
+            hs.append(H.h_oob(L, f, prop, "get"))
+        if f.writable:
+            hs.append(H.h_oob(L, f, prop, "with"))
+            hs.append(H.h_oob(L, f, prop, "set"))
+    return hs
+
+
+def add_controls(us, prop, kinds=("get", "set", "oob")):
+    """negative controls on real layouts of this run (first / middle / last that qualify)"""
+    n = 0
+    picks = [us[0], us[len(us) // 2], us[-1]]
+    for k, u in enumerate(picks):
+        L = u.meta["layout"]
+        kind = kinds[k % len(kinds)]
+        done = False
+        for f in L.fields:
+            if kind == "get" and f.readable:
+                u.harnesses.append(H.ctl_get(L, f, prop)); done = True; break
+            if kind == "set" and f.writable:
+                u.harnesses.append(H.ctl_set(L, f, prop)); done = True; break
+            if kind == "oob" and f.array and f.readable:
+                u.harnesses.append(H.ctl_oob(L, f, prop, "get")); done = True; break
+        if not done:
+            for f in L.fields:
+                if f.readable:
+                    u.harnesses.append(H.ctl_get(L, f, prop)); done = True; break
+                if f.writable:
+                    u.harnesses.append(H.ctl_set(L, f, prop)); done = True; break
+        n += done
+    return n
+
+
+def alt_access(fields, choices=("rw", "w", "rw")):
+    for i, f in enumerate(fields):
+        f.access = choices[i % len(choices)]
+    return fields
+
+
+# ------------------------------------------------------------------------------------------------
+def c02_layouts(tier, seed):
+    Ls = []
+    if tier == "quick":
+        Ls += pack(8, alt_access(contiguous_fields(8, all_ranges(8))), tag="all ranges on u8")
+        rnd = random.Random(1)
+        r16 = all_ranges(16)
+        Ls += pack(16, alt_access(contiguous_fields(16, [r for r in r16 if r[0] in (0, 1, 7, 8) or r[0] + r[1] == 16 or r[1] in (1, 8)])), tag="ranges on u16")
+        for W in (32, 64, 128):
+            Ls += pack(W, alt_access(contiguous_fields(W, boundary_ranges(W))), tag=f"boundary ranges on u{W}")
+        arb = QUICK_ARB
+    else:
+        for W in NATIVE_BASES:
+            Ls += pack(W, alt_access(contiguous_fields(W, all_ranges(W))), per=8, tag=f"all ranges on u{W}")
+        arb = ALL_ARB
+    for N in arb:
+        Ls += pack(N, alt_access(contiguous_fields(N, arb_base_ranges(N))), tag=f"boundary ranges on arbitrary base u{N}")
+    return Ls
+
+
+def plan_c02(tier, seed):
+    Ls = c02_layouts(tier, seed)
+    us = units_from(Ls, lambda L: [H.h_set(L, f, "C02") for f in L.fields])
+    add_controls(us, "C02", kinds=("set", "set", "set"))
+    return Plan(us, title="setter == reference scatter", chunk=200 if tier == "quick" else 600,
+                bounds={"inputs": "all raw values x all field values per layout (symbolic)", "forms": "with_ and set_", "layouts": "this run's corpus (see harness_families / layouts_generated)"},
+                assumptions=COMMON_ASSUME)
+
+
+# ------------------------------------------------------------------------------------------------
+E2 = lambda: full_enum("E2", 2)
+E3N = lambda: sparse_enum("E3N", 3, [0, 1, 5, 7], None)
+E1 = lambda: full_enum("E1", 1)
+
+
+def c03_layouts(tier, seed):
+    rnd = random.Random(seed * 7919 + 3)
+    Ls = []
+
+    def mk(W, shape, ty=None, access="rw", explicit=None, tag="", aux=None):
+        lo, w, s, K = shape
+        f = array_field(lo, w, s, K, ty, access, explicit)
+        L = Layout(W, [f], tag=tag or f"array lo={lo} w={w} stride={s} K={K} on u{W}", aux=aux or [])
+        return L
+
+    sh8 = array_shapes(8, max_w=4, max_K=8)
+    if tier == "quick":
+        pick8 = [x for x in sh8 if (x[3] - 1) * x[2] + x[0] + x[1] == 8 or x[0] == 0]  # fill exactly or start at 0
+        pick8 = pick8 if len(pick8) <= 70 else random.Random(5).sample(pick8, 70)
+    else:
+        pick8 = sh8
+    for i, x in enumerate(pick8):
+        tys = elem_type_variants(x[1])
+        Ls.append(mk(8, x, tys[i % len(tys)], ["rw", "rw", "r", "w"][i % 4]))
+    sh16 = array_shapes(16, max_w=8, max_K=16)
+    pick16 = [x for x in sh16 if (x[3] - 1) * x[2] + x[0] + x[1] == 16]
+    if tier == "quick":
+        pick16 = random.Random(6).sample(pick16, 30)
+    else:
+        pick16 = pick16 + rnd.sample([x for x in sh16 if x not in pick16], 400)
+    for i, x in enumerate(pick16):
+        tys = elem_type_variants(x[1])
+        Ls.append(mk(16, x, tys[i % len(tys)]))
+    for W in (32, 64, 128):
+        for i, x in enumerate(fill_shapes(W)):
+            for ty in elem_type_variants(x[1]):
+                Ls.append(mk(W, x, ty))
+    bases = QUICK_ARB if tier == "quick" else ALL_ARB
+    for N in bases:
+        if N < 2:
+            continue
+        shapes = fill_shapes(N)
+        if tier == "quick":
+            shapes = shapes[:3]
+        for x in shapes:
+            for ty in elem_type_variants(x[1])[:1 if tier == "quick" else 2]:
+                Ls.append(mk(N, x, ty))
+    # enum-typed elements (exhaustive and Option) and explicit stride == width, legacy syntax
+    for W in (8, 16, 32, 64, 128) + ((24, 65) if tier == "quick" else tuple(ALL_ARB[::7])):
+        if W >= 8:
+            e = E2()
+            Ls.append(mk(W, (W - 8, 2, 2, 4), FType("enum", 2, e), aux=[e], tag=f"exhaustive 2-bit enum array ending at top of u{W}"))
+            e = E3N()
+            Ls.append(mk(W, (1, 3, 3, 2), FType("optenum", 3, e), aux=[e], tag=f"Option<enum> array on u{W}"))
+            e = E1()
+            Ls.append(mk(W, (0, 1, 2, 4), FType("enum", 1, e), aux=[e], tag=f"1-bit enum array with gaps on u{W}"))
+            L = mk(W, (0, 4, 4, 2), T_uint(4), explicit=True, tag=f"explicit stride == width, legacy stride syntax on u{W}")
+            L.legacy = True
+            Ls.append(L)
+    if tier != "quick":
+        for W in (32, 64, 128):
+            sh = array_shapes(W, max_w=W // 2, max_K=16)
+            for i, x in enumerate(rnd.sample(sh, 150)):
+                tys = elem_type_variants(x[1])
+                Ls.append(mk(W, x, tys[i % len(tys)]))
+    return Ls
+
+
+def plan_c03(tier, seed):
+    Ls = c03_layouts(tier, seed)
+    us = units_from(Ls, lambda L: sum([field_harnesses(L, f, "C03") for f in L.fields], []))
+    add_controls(us, "C03", kinds=("oob", "get", "set"))
+    return Plan(us, title="arrays: element i at lo+i*stride, bounds-checked", chunk=230 if tier == "quick" else 600,
+                bounds={"inputs": "all raw values, all element values, all indices (in range: i<K; out of range: all 2^64-K others) per layout", "layouts": "array shapes of this run (exhaustive small shapes on u8, fill-exactly / K=2 / gap shapes elsewhere); K <= 16 except exact fills"},
+                assumptions=COMMON_ASSUME + ["an out-of-range index must be stopped by a panic that does not depend on overflow checks (an `attempt to ... with overflow` failure alone counts as a violation, confirmed in the release replay)"])
+
+
+# ------------------------------------------------------------------------------------------------
+def c04_layouts(tier, seed):
+    rnd = random.Random(seed * 104729 + 4)
+    Ls = []
+    bases = [8, 16, 32, 64, 128] + ([7, 24, 33, 100] if tier == "quick" else ALL_ARB[::5])
+    for W in bases:
+        for (tag, ty, rs) in documented_lists(W):
+            if max(lo + n for lo, n in rs) <= W:
+                Ls.append(Layout(W, [Field("f", ty, rs, None, "rw")], tag=f"{tag} on u{W}"))
+    # random lists
+    nrand = 110 if tier == "quick" else 1500
+    srnd = random.Random(4242)  # the structured-random part is fixed; the seed adds more on top
+    for k in range(nrand):
+        r = srnd if k < nrand * 2 // 3 else rnd
+        W = r.choice([8, 16, 32, 64, 128, 128, r.choice(ALL_ARB)])
+        if W < 2:
+            continue
+        wmax = W
+        w = r.choice([2, 3, 4, 5, 7, 8, 8, 9, 12, 16, 16, 24, 32, 32, 33, 63, 64, 64, 65, 100, 127, 128, r.randint(2, 128)])
+        if w > wmax:
+            w = r.randint(2, wmax)
+        rs = random_list(r, W, w)
+        ty = list_type_for(r, w)
+        Ls.append(Layout(W, [Field("f", ty, rs, None, r.choice(["rw", "rw", "rw", "r", "w"]))], tag=f"random list w={w} on u{W}"))
+    # arrays of lists: disjoint elements and interleaving elements
+    arr = []
+    arr.append((8, T_uint(2), [(0, 1), (4, 1)], (4, 1, True), "interleaving: element i = bits {i, 4+i}"))
+    arr.append((8, T_uint(4), [(0, 1), (2, 1), (4, 1), (6, 1)], (2, 1, True), "interleaving even/odd bits (documented test shape)"))
+    arr.append((16, T_uint(4), [(0, 2), (8, 2)], (4, 2, True), "interleaving halves"))
+    arr.append((32, T_uint(8), [(0, 4), (16, 4)], (4, 4, True), "nibble pairs"))
+    arr.append((32, T_int(8), [(4, 4), (0, 4)], (4, 8, True), "signed swapped nibbles per byte"))
+    arr.append((64, T_uint(16), [(8, 8), (0, 8)], (4, 16, True), "byte swap per u16 lane"))
+    arr.append((64, T_uint(12), [(0, 5), (8, 7)], (4, 16, True), "disjoint lanes with gaps"))
+    arr.append((128, T_uint(32), [(16, 16), (0, 16)], (4, 32, True), "u128 lanes, swapped halves"))
+    arr.append((128, T_uint(64), [(32, 32), (0, 32)], (2, 64, True), "u128: 64-bit elements"))
+    arr.append((128, T_int(64), [(0, 32), (32, 32)], (2, 64, True), "u128: signed 64-bit elements"))
+    arr.append((24, T_uint(3), [(0, 1), (8, 1), (16, 1)], (8, 1, True), "arbitrary base: bit planes"))
+    arr.append((100, T_uint(10), [(5, 5), (0, 5)], (10, 10, True), "arbitrary base u100: ten lanes, fills exactly"))
+    arr.append((63, T_uint(7), [(0, 3), (4, 4)], (7, 9, True), "arbitrary base u63: gaps, last ends at top"))
+    for (W, ty, rs, a, tag) in arr:
+        Ls.append(Layout(W, [Field("a", ty, rs, a, "rw")], tag=f"array of lists: {tag}"))
+        Ls.append(Layout(W, [Field("a", ty, list(reversed(rs)), a, "rw")], tag=f"array of lists (reversed order): {tag}"))
+    nr = 25 if tier == "quick" else 300
+    for k in range(nr):
+        r = srnd if k < nr * 2 // 3 else rnd
+        W = r.choice([16, 32, 64, 128, r.choice([n for n in ALL_ARB if n >= 12])])
+        K = r.randint(2, 6)
+        span = W // K
+        if span < 2:
+            continue
+        w = r.randint(2, span)
+        rs = random_list(r, span, w, parts=r.randint(2, min(4, w)))
+        off = r.randint(0, W - span * K)
+        rs = [(lo + off, n) for (lo, n) in rs]
+        Ls.append(Layout(W, [Field("a", list_type_for(r, w), rs, (K, span, True), "rw")], tag=f"random array of lists K={K} stride={span} on u{W}"))
+    return Ls
+
+
+def plan_c04(tier, seed):
+    Ls = c04_layouts(tier, seed)
+    us = units_from(Ls, lambda L: sum([field_harnesses(L, f, "C04") for f in L.fields], []))
+    add_controls(us, "C04", kinds=("get", "set", "get"))
+    return Plan(us, title="non-contiguous gather/scatter", chunk=220 if tier == "quick" else 600,
+                bounds={"inputs": "all raw values x all field values x all indices per layout", "lists": "2..8 pairwise-disjoint items, any order; arrays of lists with K <= 10", "layouts": "documented shapes on every base where they fit + seeded random lists + arrays of lists"},
+                assumptions=COMMON_ASSUME + ["lists naming the same bit twice are outside the guarantee and not generated here"])
+
+
+# ------------------------------------------------------------------------------------------------
+def c05_layouts(tier, seed):
+    rnd = random.Random(seed * 31337 + 5)
+    Ls = []
+    bases = [8, 16, 32, 64, 128] + ([9, 12, 24, 33, 48, 65, 100, 127] if tier == "quick" else ALL_ARB)
+    for N in (8, 16, 32, 64, 128):
+        for W in bases:
+            if W < N:
+                continue
+            los = sorted(set([0, W - N, (W - N) // 2, 1 if W - N >= 1 else 0, 3 if W - N >= 3 else 0]))
+            if tier != "quick" and W in NATIVE_BASES:
+                los = list(range(0, W - N + 1))
+            fs = [Field("f", T_int(N), [(lo, N)], None, "rw") for lo in los]
+            Ls += pack(W, fs, per=4, tag=f"i{N} plain on u{W}")
+            if W >= 2 * N:
+                K = W // N
+                Ls.append(Layout(W, [Field("a", T_int(N), [(0, N)], (K, N, False), "rw")], tag=f"i{N} array default stride K={K} on u{W}"))
+                Ls.append(Layout(W, [Field("a", T_int(N), [(W - 2 * N, N)], (2, N, True), "rw")], tag=f"i{N} array K=2 at top on u{W}"))
+            if W >= 2 * N + 2:
+                s = N + 1
+                K = (W - N) // s + 1
+                Ls.append(Layout(W, [Field("a", T_int(N), [(W - ((K - 1) * s + N), N)], (K, s, True), "rw")], tag=f"i{N} array stride {s} (gaps) on u{W}"))
+            if W >= N + 2:
+                h = N // 2
+                Ls.append(Layout(W, [Field("f", T_int(N), [(0, h), (W - h, h)], None, "rw")], tag=f"i{N} two-range list low,high on u{W}"))
+                Ls.append(Layout(W, [Field("f", T_int(N), [(W - h, h), (1, h)], None, "rw")], tag=f"i{N} two-range list high,low on u{W}"))
+                Ls.append(Layout(W, [Field("f", T_int(N), [(1, 1), (W - N + 1, N - 1)], None, "rw")], tag=f"i{N} list with 1-bit first item on u{W}"))
+            if W >= 2 * N + 2:
+                Ls.append(Layout(W, [Field("a", T_int(N), [(N // 2, N // 2), (0, N // 2)], (2, N + 1, True), "rw")], tag=f"i{N} array of lists on u{W}"))
+    return Ls
+
+
+def h_signed_extra(L, f):
+    """C05: negative arguments must not disturb any bit outside the field (explicit witness that
+    negative values are reachable and covered)"""
+    b = H.raw_sym(L)
+    b.append(f"let x = {L.name}::new_with_raw_value(r);")
+    il, i, sh = H.idx_lines(f)
+    b += il
+    b.append(f"let v: i{f.ty.width} = vany();")
+    b.append("vassume(v < 0);")
+    b.append(f"let y = {H.call_with(f, 'x', i, 'v')};")
+    b.append(f"let m: u128 = spec::mask({H.rng(f.ranges)}, {sh});")
+    b.append(f'assert!(({H.raw_of(L, "y")} & !m) == (r128 & !m), "VERIF negative value leaked outside the field");')
+    b.append(f"let g: i{f.ty.width} = {H.call_get(f, 'y', i)};")
+    b.append('assert!(g == v, "VERIF negative value does not read back");')
+    b.append('vcover!(v == -1, "VERIF-REACH-minus-one");')
+    b.append("vend!();")
+    from .engine import Harness
+    return Harness(f"neg_{f.name}", "\n".join(b), "pass", "signed_negative", "C05", f.name, H.funcs_for(L, f, ["with_", ""]), reach=("VERIF-REACH-minus-one",))
+
+
+def plan_c05(tier, seed):
+    Ls = c05_layouts(tier, seed)
+    us = units_from(Ls, lambda L: sum([[H.h_get(L, f, "C05"), H.h_set(L, f, "C05"), h_signed_extra(L, f)] for f in L.fields], []))
+    add_controls(us, "C05", kinds=("get", "set", "set"))
+    return Plan(us, title="signed fields", chunk=220 if tier == "quick" else 600,
+                bounds={"inputs": "all raw values x all iN values (negative included) x all indices", "layouts": "N in {8,16,32,64,128} x bases >= N x {plain (several lo), array default/explicit stride, two-range lists both orders, array of lists}"},
+                assumptions=COMMON_ASSUME)
+
+
+PLANS.update({"C02": plan_c02, "C03": plan_c03, "C04": plan_c04, "C05": plan_c05})
